@@ -61,6 +61,33 @@ def rule_a(ctx):
     p = f.params[1]
     am = AM(f)
     ctx.ob(R, f.qname, "the dimension at the reduced matrix index is removed", am.has(f.node, f"new_dimensions = {p}.dimensions.copy()") is not None and am.has(f.node, "new_dimensions.pop(self.index)") is not None, "", f.node)
+    # named contradiction: a Cartesian-ordered vector (derived from the origin) is reduced at the matrix index, or a matrix-ordered list
+    # (derived from dimensions) at the Cartesian axis -- the two positions differ for every axis but one in 2-d and for all in 3-d
+    defs_ = {}
+    for s_ in ast.walk(f.node):
+        if isinstance(s_, ast.Assign) and len(s_.targets) == 1 and isinstance(s_.targets[0], ast.Name):
+            defs_.setdefault(s_.targets[0].id, []).append(s_.value)
+
+    def kind_of(name, seen=()):
+        ks = set()
+        for v in defs_.get(name, []):
+            t = norm(v)
+            if f"{p}.origin" in t:
+                ks.add("cartesian")
+            if f"{p}.dimensions" in t:
+                ks.add("matrix")
+            for x in ast.walk(v):
+                if isinstance(x, ast.Name) and x.id in defs_ and x.id != name and x.id not in seen:
+                    ks |= kind_of(x.id, seen + (name,))
+        return ks
+    for c_ in ast.walk(f.node):
+        if isinstance(c_, ast.Call) and isinstance(c_.func, ast.Attribute) and c_.func.attr == "pop" and isinstance(c_.func.value, ast.Name) and len(c_.args) == 1 \
+                and norm(c_.args[0]) in ("self.axis", "self.index"):
+            ks = kind_of(c_.func.value.id)
+            if len(ks) == 1:
+                want = "self.axis" if ks == {"cartesian"} else "self.index"
+                ctx.ob(R, f.qname, f"`{norm(c_)}`: a {next(iter(ks))}-ordered vector is reduced at its own kind of position ({want})", norm(c_.args[0]) == want,
+                       f"{norm(c_.func.value)} is {next(iter(ks))}-ordered, {norm(c_.args[0])} is the {'matrix index' if norm(c_.args[0]) == 'self.index' else 'Cartesian axis'}", c_, evidence=True)
     ctx.ob(R, f.qname, "the origin component at the reduced Cartesian axis is removed", all(am.has(f.node, t) is not None for t in (f"min_corner = {p}.origin.copy()", "new_min_corner = min_corner.tolist()", "new_min_corner.pop(self.axis)", "new_origin = np.array(new_min_corner)")), "", f.node)
     am.has(f.node, f"metadata = {p}.metadata()")
     am.has(f.node, "new_dim = original_dim - 1")
